@@ -152,3 +152,10 @@ func VerifSetMsgQueueSize(n int) int {
 
 // VerifReactorFastSync reports whether the reactor still ignores data and votes.
 func (conR *ConsensusReactor) VerifFastSync() bool { return conR.fastSync }
+
+// VerifStopWALTickers stops the WAL's background tickers (see autofile.VerifStopTickers).
+func (cs *ConsensusState) VerifStopWALTickers() {
+	if cs.wal != nil && cs.wal.group != nil {
+		cs.wal.group.VerifStopTickers()
+	}
+}
